@@ -341,6 +341,24 @@ def sweep(ctx):
                 if 'fail' in r:
                     ctx.fail(c01_targets.move_signature(r), f"{r['op']} of {c01_targets.MOVE_STMTS[r['case'][1]]!r} in {r['src']!r} -> {r.get('after')!r}: {r['fail'][:200]}", r)
     ctx.notes['moved_statements'] = mn
+    # par() / unpar() as edit steps (also with the node's parentheses queried first), followed by a replacement that
+    # consults them; tight layouts where a parenthesis is glued to keywords on both sides
+    rn = 0
+    for lst in pmap(c01_targets.run_par_case, c01_targets.par_cases()):
+        for r in lst:
+            if 'setup_error' in r:
+                ctx.brk('harness', 'c01_targets par set-up', str(r)[:200])
+            elif 'raised' in r:
+                ctx.tally('par_raised', f"{r['field']}:{r['raised']}")
+            elif 'unparsable_accessor' in r:
+                ctx.tally('par_not_judged', 'unpar removed needed parentheses (caller\'s request)')
+            else:
+                rn += 1
+                ctx.count(('r', r['case'][1], r['node'], r['op']), True)
+                ctx.tally('par_op', r['field'])
+                if 'fail' in r:
+                    ctx.fail(c01_targets.par_signature(r), f"{r['op']} on {r['cls']} of {r['src']!r} -> {r.get('after')!r}: {r['fail'][:200]}", r)
+    ctx.notes['par_unpar_steps'] = rn
     # witnesses of REPAIRED findings are regression inputs: a 'fixed' entry suppresses nothing, so a witness that fails again
     # (repair reverted or not yet applied) is reported under its own signature
     import framework
@@ -401,7 +419,7 @@ def check_known(ctx, entry):
     w = entry['witness']
     if 'case' in w:
         import c01_targets
-        d = (c01_targets.replay_prim(w) if w['case'][0] == 'p' else c01_targets.replay_move(w) if w['case'][0] == 'm' else c01_targets.replay(w))
+        d = (c01_targets.replay_prim(w) if w['case'][0] == 'p' else c01_targets.replay_move(w) if w['case'][0] == 'm' else c01_targets.replay_par(w) if w['case'][0] == 'r' else c01_targets.replay(w))
         if d:
             ctx.fail(entry['id'], entry['what'], w)
         return
@@ -434,7 +452,7 @@ def replay(ctx, data):
         return
     if 'case' in w:                 # a witness of the targeted product sweeps
         import c01_targets
-        d = (c01_targets.replay_prim(w) if w['case'][0] == 'p' else c01_targets.replay_move(w) if w['case'][0] == 'm' else c01_targets.replay(w))
+        d = (c01_targets.replay_prim(w) if w['case'][0] == 'p' else c01_targets.replay_move(w) if w['case'][0] == 'm' else c01_targets.replay_par(w) if w['case'][0] == 'r' else c01_targets.replay(w))
         if d:
             ctx.fail('replay', d, w)
         return
